@@ -44,6 +44,10 @@ inductive Sock where
   | turn (relayed : Addr)
 deriving DecidableEq, Repr, Inhabited
 
+/-- `send_to` is not supported on the listener wrapper: the reply is attempted and fails -/
+def Sock.canSend : Sock → Bool
+  | .tcpListener _ => false | _ => true
+
 def Sock.isTcpStream : Sock → Bool
   | .tcpStream _ => true | _ => false
 
@@ -203,7 +207,7 @@ def step (s : St) (sock : Sock) (src : Addr) (i : Inp) : St × Out :=
   | .data => (s, { forwarded := true })
   | .undecodable => (s, {})
   | .indication => (s, {})
-  | .request r => (handleRequest s sock src r, { replied := true })
+  | .request r => (handleRequest s sock src r, { replied := sock.canSend })
   | .response tx _ =>
     let (s', d) := handleResponse s tx
     (s', { delivered := d })
